@@ -37,8 +37,8 @@ TIERS = {
     "quick": {"runs": 1600, "batch": 4, "timeout_s": 600, "max_ops": 9, "faulted": 2, "shrink_budget": 80},
     "thorough": {"runs": 40000, "batch": 8, "timeout_s": 1800, "max_ops": 14, "faulted": 6, "shrink_budget": 160},
 }
-RULE = ("History on ONE operator: (jac|hess) x function kind [plain function with explicit tensors, method of 8 "
-        "EditableModule kinds / 4 nn.Module kinds, pre-built PureFunction, sibling] x argument shapes [(n,), (n,1), (1,n), "
+RULE = ("History on ONE operator: (jac|hess) x function kind [plain function with explicit tensors, method of 9 "
+        "EditableModule kinds / 5 nn.Module kinds, pre-built PureFunction, sibling] x argument shapes [(n,), (n,1), (1,n), "
         "0-d; non-tensor arguments interleaved; python-float / no-grad arguments] x index selection [int, None, sequence; "
         "invalid index as a request that must be rejected] x <=9 (quick) operations: product in {mv,rmv,mm,rmm,fullmatrix,"
         "H.mv,H.rmv,H.mm,H.fullmatrix} with operand batch rank 0-2 under no_grad/enable_grad; first- and second-order "
